@@ -471,9 +471,9 @@ def planOf (b : Binary) (fl : Flags) : Option Plan :=
     | .ok opts =>
       if fl.gitDiffDriver then
         if fl.nargs != 7 then none
-        -- printGitDiffDriver takes `options` ([]v2.Option) and calls diffV2: with -v2=false that
-        -- list was never filled, so the v2 library is called WITHOUT options
-        else some ⟨"gitdiff", false, if libIsV1 b fl then [] else opts, fl.color, [.arg 1, .arg 4]⟩
+        -- printGitDiffDriver always calls diffV2 with the v2 option list, which main fills whenever
+        -- the driver is used (also with -v2=false)
+        else some ⟨"gitdiff", false, opts, fl.color, [.arg 1, .arg 4]⟩
       else if fl.p && fl.t != "" then none
       else
         match inputsOf fl with
